@@ -523,7 +523,9 @@ class BufSem:
             return Verdict(None, f"method {name} not found")
         if isinstance(ps, str):
             return Verdict(None, f"{name}: statement outside the analysed subset ({ps})", line=fn.node.lineno)
-        cases = {"extend": "AB", "avail": "AB", "len": "AB", "pop-octet": "B", "trim-pos": "AB", "clear": "AB", "pop-line": "ABCD", "trim-needle": "ABCD"}[kind]
+        cases = {"extend": "AB", "avail": "AB", "len": "AB", "pop-octet": "B", "trim-pos": "AB", "clear": "AB", "pop-line": "ABCD", "trim-needle": "ABCD"}.get(kind)
+        if cases is None:
+            return Verdict(None, f"{name}: the method does not fit a buffer contract the checker knows ({kind})", line=fn.node.lineno)
         info = {}
         for case in cases:
             n_cons = 0
